@@ -8,7 +8,10 @@ model  : lean Gen/Kernels.lean (regenerated from kernels.py by
          model_c08; the scale factors fac*h^-k*exp(-q^2) are applied here
 oracle : the property statement evaluated directly on the real code
          (support, sign, monotonicity, quadrature of the radial integral,
-         finite differences in r and h, gradient shape, compiled == Python),
+         finite differences in r and h, gradient shape, compiled == Python;
+         kernel / dwdq / gradient / gradient_h EXACTLY ON every knot and on the
+         support edge: continuity with the one-sided values and the finite
+         differences, for powers of two, decimals and random h),
          independent of the model.
 """
 import json
@@ -116,6 +119,60 @@ def doc_fac(name, dim):
 #   {kernel, dim, impl: py|c, check, ...parameters};  returns None if it holds,
 #   else (demand, observed).
 
+AT_KNOT = {'kernel-at-knot': 'kernel', 'dwdq-at-knot': 'dwdq',
+           'gradient_h-at-knot': 'gradient_h', 'gradient-at-knot': 'gradient'}
+KNOT_EPS = 2.0 ** -20
+
+
+def knot_r(b, h):
+    """an r with r*(1/h) == b EXACTLY in floating point (the kernels compute
+    q = rij*(1./h)); None if no double within 3 ulp of b*h does it"""
+    h1 = 1.0 / h
+    r = b * h
+    cands, up, dn = [r], r, r
+    for _ in range(3):
+        up, dn = math.nextafter(up, math.inf), math.nextafter(dn, 0.0)
+        cands += [up, dn]
+    for c in cands:
+        if c * h1 == b:
+            return c
+    return None
+
+
+def knot_h_values(rng, n_random):
+    """the smoothing lengths at which every knot is visited: powers of two over
+    30 binades, simple decimals, and random ones"""
+    hs = [2.0 ** k for k in range(-20, 11, 2)] + [1.0, 0.5, 0.1, 0.05, 0.7, 1.3, 3.0]
+    hs += [10 ** rng.uniform(-6, 6) for _ in range(n_random)]
+    return hs
+
+
+def gen_knot_cases(rng, n_random, which=('py', 'c'), count=None):
+    """kernel, dwdq, gradient and gradient_h exactly ON every knot and on the
+    support edge, for every h of the list"""
+    cases = []
+    for name, dim in configs():
+        radius = float(getattr(KM, name)(dim=dim).radius_scale)
+        mag = 1000.0 if 'Spline' in name else 10.0
+        hs = knot_h_values(rng, n_random)
+        for b in breakpoints(radius):
+            if name in GAUSS_FAMILY and b >= radius:
+                continue            # the stated truncation jump
+            for h in hs:
+                r = knot_r(b, h)
+                if r is None:
+                    if count is not None:
+                        count('knot:no-double-hits-the-knot-exactly')
+                    continue
+                for wh in which:
+                    d = direction(rng)
+                    for chk in AT_KNOT:
+                        cases.append({'kernel': name, 'dim': dim, 'impl': wh, 'check': chk,
+                                      'h': h, 'r': r, 'knot': b, 'eps': KNOT_EPS,
+                                      'delta': 1e-3, 'mag': mag, 'dir': d})
+    return cases
+
+
 def scale_of(K, h):
     return abs(K.py.fac) * (1.0 / h) ** K.dim
 
@@ -206,6 +263,62 @@ def prop_case(case):
             return ('gradient_h = dW/dh (finite difference %r, tol %.3g)' % (fd, tol),
                     'gradient_h(r=%r, h=%r) = %r' % (r, h, gh))
         return None
+    if chk in AT_KNOT:
+        # r sits EXACTLY on a piece boundary: q = r*(1/h) == knot in floating
+        # point, as every kernel method computes it.  Spline / Wendland kernels
+        # are C1 there (C0 suffices for what is demanded), the Gaussian family is
+        # smooth at q = 1, 2 (its truncation edge is never sent here).
+        fn = AT_KNOT[chk]
+        r, b, eps = case['r'], case['knot'], case['eps']
+        if r * (1.0 / h) != b:
+            return ('the case puts r exactly on the knot', 'r*(1/h) = %r, knot = %r' % (r * (1.0 / h), b))
+        dirn = case['dir']
+        s1 = sc if fn in ('kernel', 'dwdq') else sc / h
+
+        def val(rr):
+            xij = [rr * d for d in dirn]
+            if fn == 'kernel':
+                return (K.kernel(xij, rr, h),)
+            if fn == 'dwdq':
+                return (K.dwdq(rr, h),)
+            if fn == 'gradient_h':
+                return (K.gradient_h(xij, rr, h),)
+            return K.gradient(xij, rr, h)
+        v0, vl, vr = val(r), val(r * (1.0 - eps)), val(r * (1.0 + eps))
+        # continuity: |f(b) - f(b(1 +- eps))| <= Lip * b * eps, Lip <= 4*mag in units of the scale
+        tol = 4.0 * case.get('mag', 1.0) * eps * b * s1 + 1e-300
+        for a, lft, rgt in zip(v0, vl, vr):
+            if not (abs(a - lft) <= tol and abs(a - rgt) <= tol):
+                return ('%s exactly on the knot r/h = %r lies within %.3g of its one-sided values at '
+                        'q(1 -+ 2^%d): left %r, right %r' % (fn, b, tol, round(math.log2(eps)), vl, vr),
+                        '%s(r=%r, h=%r) = %r' % (fn, r, h, v0))
+        dl = case['delta'] * h
+        if fn == 'gradient_h':
+            def f(hh):
+                return K.kernel([r, 0., 0.], r, hh)
+            fd = (-f(h + 2 * dl) + 8 * f(h + dl) - 8 * f(h - dl) + f(h - 2 * dl)) / (12 * dl)
+            tol2 = 1e-6 * sc / h * case.get('mag', 1.0)
+            if not abs(fd - v0[0]) <= tol2:
+                return ('gradient_h = dW/dh exactly on the knot r/h = %r (centred finite difference of '
+                        'kernel() in h: %r, tol %.3g)' % (b, fd, tol2),
+                        'gradient_h(r=%r, h=%r) = %r' % (r, h, v0[0]))
+        elif fn == 'dwdq':
+            def f(x):
+                return K.kernel([x, 0., 0.], x, h)
+            fd = (-f(r + 2 * dl) + 8 * f(r + dl) - 8 * f(r - dl) + f(r - 2 * dl)) / (12 * dl)
+            tol2 = 1e-6 * sc * case.get('mag', 1.0)
+            if not abs(h * fd - v0[0]) <= tol2:
+                return ('dwdq = h * dW/dr exactly on the knot r/h = %r (centred finite difference of '
+                        'kernel() in r: %r, tol %.3g)' % (b, h * fd, tol2),
+                        'dwdq(r=%r, h=%r) = %r' % (r, h, v0[0]))
+        elif fn == 'gradient':
+            dq = K.dwdq(r, h)
+            want = [dq / h * d for d in dirn]
+            tol2 = 16 * EPS * abs(dq / h) + 1e-300
+            if any(not abs(a - w) <= tol2 for a, w in zip(v0, want)):
+                return ('gradient = (dwdq/h) * xij/r = %r exactly on the knot r/h = %r' % (want, b),
+                        'gradient=%r' % (v0,))
+        return None
     if chk == 'compiled-equals-python':
         r = case['r']
         xij = [r * d for d in case['dir']]
@@ -272,14 +385,14 @@ def gen_prop_cases(rng, n_h, n_pts, which=('py', 'c')):
         for wh in which:
             base = {'kernel': name, 'dim': dim, 'impl': wh}
             for h in h_values(rng, n_h):
-                pow2 = math.frexp(h)[0] == 0.5
                 # support: beyond the edge, and exactly on it when r/h is exact
                 for j in range(3):
                     f = rng.choice([1 + 1e-9, 1.0 + 2.0 ** -30, 1.5, 4.0, 1e3])
                     cases.append(dict(base, check='support', h=h, r=radius * h * f,
                                       dir=direction(rng)))
-                if pow2:
-                    cases.append(dict(base, check='support', h=h, r=radius * h,
+                redge = knot_r(radius, h)
+                if redge is not None:
+                    cases.append(dict(base, check='support', h=h, r=redge,
                                       dir=direction(rng)))
                 # sign / monotone: grid incl. breakpoints and their neighbours
                 if name != 'SuperGaussian':
@@ -335,6 +448,12 @@ def corpus():
             out.append({'kernel': 'SuperGaussian', 'dim': d, 'impl': wh,
                         'check': 'gradient_h-is-dWdh', 'h': 0.7, 'r': 0.91,
                         'delta': 1e-3, 'mag': 10.0})
+    # seed2-B: `if q < 1 … elif q > 1 and q < 2` left q == 1 to the initial zeros in
+    # CubicSpline.gradient_h (Python class and compiled twin alike)
+    for d, wh, h in ((1, 'py', 1.0), (2, 'c', 0.5), (1, 'c', 0.1)):
+        out.append({'kernel': 'CubicSpline', 'dim': d, 'impl': wh, 'check': 'gradient_h-at-knot',
+                    'h': h, 'r': knot_r(1.0, h), 'knot': 1.0, 'eps': KNOT_EPS, 'delta': 1e-3,
+                    'mag': 1000.0, 'dir': [1.0, 0.0, 0.0]})
     out.append({'kernel': 'CubicSpline', 'dim': 2, 'impl': 'py', 'check': 'support',
                 'h': 0.5, 'r': 1.0, 'dir': [0.0, 1.0, 0.0]})
     out.append({'kernel': 'QuinticSpline', 'dim': 3, 'impl': 'py', 'check': 'normalised',
@@ -510,7 +629,8 @@ def main():
         'model cases = (kernel table, r, h, direction): all 21 class x dimension tables, h over 12 '
         'decades and powers of two, r/h random in [0, 1.05 radius], exactly on and one ulp around '
         'every breakpoint and the edge, r around the 1e-12 guard; distinct = distinct '
-        '(kernel, dim, r, h); non-trivial = 0 < r/h < radius_scale.  Oracle cases are counted '
+        '(kernel, dim, r, h); non-trivial = 0 < r/h < radius_scale.  Oracle cases (incl. the four '
+        'functions exactly on every knot, <fn>-at-knot) are counted '
         'per check in the distribution (oracle:<check>:<impl>).')
     if a.replay:
         rp = json.load(open(a.replay))
@@ -534,10 +654,11 @@ def main():
     same = check_mako(R, a.work)
     check_model(model_points(rng, 10 if quick else 24, 40 if quick else 120), R)
     run_prop_cases(gen_prop_cases(rng, 8 if quick else 24, 32 if quick else 96), R)
+    run_prop_cases(gen_knot_cases(rng, 6 if quick else 40, count=R.count), R)
     if a.broken or R.d['disagreements'] or same is False:
         rng2 = random.Random(a.seed + 12345)
         before = len(R.d['property_failures'])
-        extra = gen_prop_cases(rng2, 12, 48)
+        extra = gen_prop_cases(rng2, 12, 48) + gen_knot_cases(rng2, 60, count=R.count)
         run_prop_cases(extra, R)
         R.d['search'] = {'extra_cases': len(extra),
                          'found': len(R.d['property_failures']) - before}
